@@ -450,7 +450,7 @@ def jobs(tier):
     out = []
     q = tier == 'quick'
     F = {'max_paths': 300, 'diffcheck': False, 'replay_candidates': 1,
-         'facts_final': True}
+         'facts_final': True, 'confirm_by_terms': True}
     emsets = [['Gaussian'], ['LogNormal'], ['Multiplicative', 'Gaussian'],
               ['ConstantAndMultiplicative', 'LogNormal']]
     for ems in emsets:
